@@ -49,6 +49,11 @@ BAD = {
     'cov-name-separator': lambda pe, x: pe.cov_Obs(1.0, 0.25, 'a|b'),
     'cov-asymmetric': lambda pe, x: pe.cov_Obs([1.0, 2.0], [[1.0, 0.5], [0.25, 1.0]], 'cv'),
     'cov-indefinite': lambda pe, x: pe.cov_Obs([1.0, 2.0], [[1.0, 2.0], [2.0, 1.0]], 'cv'),
+    'cov-negative-variance': lambda pe, x: pe.cov_Obs(1.0, -0.04, 'cv'),
+    'cov-asymmetric-with-grad': lambda pe, x: pe.cov_Obs([1.0, 2.0], [[1.0, 0.5], [0.25, 1.0]], 'cv', grad=[1.0, -1.0]),
+    'cov-indefinite-with-grad': lambda pe, x: pe.cov_Obs([1.0, 2.0], [[1.0, 2.0], [2.0, 1.0]], 'cv', grad=[1.0, -1.0]),
+    'cov-negative-variance-with-grad': lambda pe, x: pe.cov_Obs(1.0, -0.04, 'cv', grad=[2.0]),
+    'cov-negative-diagonal-with-grad': lambda pe, x: pe.cov_Obs([1.0, 2.0], [0.25, -0.04], 'cv', grad=[[1.0, 0.0], [0.0, 1.0]]),
     'cov-not-square': lambda pe, x: pe.cov_Obs([1.0, 2.0], [[1.0, 0.0, 0.0], [0.0, 1.0, 0.0]], 'cv'),
     'cov-means-count': lambda pe, x: pe.cov_Obs([1.0, 2.0, 3.0], [[1.0, 0.0], [0.0, 1.0]], 'cv'),
 }
